@@ -13,7 +13,7 @@ use std::collections::BTreeMap;
 const P: &str = "C03";
 
 pub const W_DML: Weights = Weights { create: 4, drop: 1, insert: 14, update: 10, delete: 6, select: 10, wstream: 2, rstream: 1, summary: 2, sum_cp: 0, db_cp: 0, flush: 1, reopen: 3 };
-pub const DML: Profile = Profile { name: "dml", allow_empty: true, allow_key_update: true, allow_long: false, codepages: false, non_ascii: true, try_invalid: false };
+pub const DML: Profile = Profile { name: "dml", allow_empty: true, allow_key_update: true, allow_long: true, codepages: false, non_ascii: true, try_invalid: false };
 
 /// After every step: every user table, every stream and the summary equal
 /// the model (this is also the frame condition: what the op did not name is
